@@ -174,7 +174,7 @@ struct NotifierImpl {
     on_should_reload_callback: Option<Box<dyn Fn() + Send + Sync + 'static>>,
     fast_reload: bool,
     #[cfg(feature = "watch-fs")]
-    fs_watcher: Option<notify::RecommendedWatcher>,
+    fs_watcher: Option<Arc<Mutex<notify::RecommendedWatcher>>>,
     #[cfg(feature = "watch-fs")]
     persistent_fs_watcher: bool,
 }
@@ -346,7 +346,10 @@ impl Notifier {
             return;
         };
         let weak_handle = Arc::downgrade(&handle);
-        f(handle
+        // The watcher has a lock of its own: a call into it only returns once the watcher's
+        // thread has picked it up, and that thread takes the notifier lock in the callback
+        // below.  Holding the notifier lock across such a call would deadlock the two.
+        let watcher = handle
             .lock()
             .unwrap()
             .fs_watcher
@@ -375,8 +378,11 @@ impl Notifier {
                         }
                     }
                 })
+                .map(|watcher| Arc::new(Mutex::new(watcher)))
                 .expect("unable to initialize fs watcher")
-            }));
+            })
+            .clone();
+        f(&mut watcher.lock().unwrap());
     }
 
     /// Marks the reload as started.  Whether this is a fast reload is decided here,
